@@ -257,7 +257,25 @@ theorem sym_sound (nreg nv : Nat) (val : Nat → Bool) (senv : SEnv) (env : Env)
     · rename_i x y hx hy
       rw [and_case nv val x y A h, iha hok.1 p hp x hx, ihc hok.2 p hp y hy]
       simp [Ex.eval]
-    · simp at h
+    · rename_i x hx hy
+      by_cases hc : (x.isConst && !x.c) = true
+      · rw [if_pos hc] at h
+        cases h
+        simp only [Bool.and_eq_true, Bool.not_eq_true'] at hc
+        have ex := iha hok.1 p hp x hx
+        rw [eval_const nv val x hc.1, hc.2] at ex
+        simp [Ex.eval, eval_zero, ← ex]
+      · rw [if_neg hc] at h; cases h
+    · rename_i y hx hy
+      by_cases hc : (y.isConst && !y.c) = true
+      · rw [if_pos hc] at h
+        cases h
+        simp only [Bool.and_eq_true, Bool.not_eq_true'] at hc
+        have ey := ihc hok.2 p hp y hy
+        rw [eval_const nv val y hc.1, hc.2] at ey
+        simp [Ex.eval, eval_zero, ← ey]
+      · rw [if_neg hc] at h; cases h
+    · cases h
   | or a c iha ihc =>
     simp only [Ex.ok, Bool.and_eq_true] at hok
     simp only [Ex.sym] at h
